@@ -202,8 +202,8 @@ def _r30_clamps(repo, sink):
                 got = it.run(f, [q], self_obj=me)
             except Undecided as u:
                 raise AnalysisError(f"DelayFixed.with_delay: {u}") from u
-            from ..absbase import poly_of
-            if poly_of(got) != poly_of(want) and not (rank_off == 1 and poly_of(got) == poly_of(Sym("sub", q, delay))):
+            from ..absbase import same_value
+            if not same_value(got, want) and not (rank_off == 1 and same_value(got, Sym("sub", q, delay))):
                 worst = worst or f"time-delay {'<' if rank_off == 0 else '==' if rank_off == 1 else '>'} start: returns {got!r}, expected {want!r}"
         sink.check(worst is None, "R30", "clamp:DelayFixed", f, ok="with_delay(t) = max(t - delay, start time)", bad=worst or "")
     # DelayToPush: init before first notification, else min(q, push_time)
@@ -243,7 +243,7 @@ def _r30_clamps(repo, sink):
             me = Obj(cls=c, label="DelayToPull")
             me.fields.update(steps=steps, additional_delay=add, _pulls=[], initial_time=ini)
             hist = []
-            from ..absbase import poly_of
+            from ..absbase import same_value
             for k, r in enumerate(reqs):
                 # reference: the steps-th previous request, or the start time
                 base = hist[k - steps] if k >= steps else ini
@@ -256,12 +256,12 @@ def _r30_clamps(repo, sink):
                     trial.fields.update(steps=steps, additional_delay=add, _pulls=list(me.fields["_pulls"]), initial_time=ini)
                     try:
                         got = it.run(wd, [r], self_obj=trial)
-                        same = poly_of(got) == poly_of(want)
+                        same = same_value(got, want)
                     except Undecided as u:
                         got, same = f"undecided {u}", False
                     except Exception as exc:  # pylint: disable=broad-except
                         got, same = f"{type(exc).__name__}", False
-                    if not same and rank_off == 1 and not isinstance(got, str) and poly_of(got) == poly_of(Sym("sub", base, add)):
+                    if not same and rank_off == 1 and not isinstance(got, str) and same_value(got, Sym("sub", base, add)):
                         same = True  # equal times: either expression denotes the start time
                     if not same:
                         worst = worst or (f"steps={steps}, request #{k}: shifts to {got!r}, expected {want!r} "
